@@ -13,7 +13,7 @@ import (
 
 func TestC14Race(t *testing.T) {
 	rapid.Check(t, func(t *rapid.T) {
-		cfg := cGenCfg{DataOps: true, NameOps: rapid.IntRange(0, 3).Draw(t, "nameops") > 0, DirRename: true, BigTrunc: rapid.Bool().Draw(t, "bigtrunc"),
+		cfg := cGenCfg{RootPlus: true, DataOps: true, NameOps: rapid.IntRange(0, 3).Draw(t, "nameops") > 0, DirRename: true, BigTrunc: rapid.Bool().Draw(t, "bigtrunc"),
 			Focus: rapid.Bool().Draw(t, "focus"), FocusDir: rapid.IntRange(0, 2).Draw(t, "focusdir")}
 		cc := genConcCase(t, cfg, 20)
 		d := NewDisk(9000)
